@@ -409,7 +409,7 @@ func main() {
 		// the eight low-3-bit patterns on K pseudo-random high parts: all eight cosets
 		K := 16
 		if thorough {
-			K = 32
+			K = 512
 		}
 		for h := 0; h < K; h += 2 {
 			var ks [][]byte
@@ -452,7 +452,7 @@ func main() {
 		}
 		KR := 256
 		if thorough {
-			KR = 2048
+			KR = 60000
 		}
 		for i := 0; i < KR; i++ {
 			strs = append(strs, rnd.New(cfg.Seed, fmt.Sprint("c07-str-", i)).Bytes(32))
@@ -466,11 +466,16 @@ func main() {
 		}
 		nk := 64
 		if thorough {
-			nk = 512
+			nk = 8192
 		}
 		emit(keypairScenario(cfg.Seed, nk))
-		emit(concurrentKeygen(cfg.Seed, 2, 2))
-		emit(concurrentKeygen(cfg.Seed, 3, 1))
+		if thorough {
+			emit(concurrentKeygen(cfg.Seed, 2, 3))
+			emit(concurrentKeygen(cfg.Seed, 3, 2))
+		} else {
+			emit(concurrentKeygen(cfg.Seed, 2, 2))
+			emit(concurrentKeygen(cfg.Seed, 3, 1))
+		}
 		for _, n := range []int{1, 63, 64, 65, 130} {
 			emit(unluckyStreak(cfg.Seed, n))
 		}
